@@ -317,7 +317,8 @@ func drawStructured(rt *rapid.T, fam string) (structCert, bool) {
 	case "smime-subject":
 		// a subject that repeats attribute types - several commonNames, several emailAddresses, mailbox and
 		// non-mailbox values in either order - on an S/MIME certificate, and a SAN that names some of them
-		vals := []string{"Jane Doe", "jane.doe@example.com", "other@example.org", "JANE.DOE@EXAMPLE.COM", "not a mailbox", "", "x@", "postmaster@xn--mnchen-3ya.de", "Pseudonym: J"}
+		vals := []string{"Jane Doe", "jane.doe@example.com", "other@example.org", "JANE.DOE@EXAMPLE.COM", "not a mailbox", "", "x@", "postmaster@xn--mnchen-3ya.de", "Pseudonym: J",
+			"postmaster@m\u00fcnchen.de", "user@b\u00fccher.example", "user@xn--bcher-kva.example", "us\u00e9r@example.com", "user@XN--BCHER-KVA.example"}
 		var rdns [][]*dt.Node
 		rdns = append(rdns, []*dt.Node{gen.ATV(gen.OIDC, 19, []byte("US"))})
 		var mails []string
@@ -337,10 +338,53 @@ func drawStructured(rt *rapid.T, fam string) (structCert, bool) {
 		}
 		v.SetSubject(gen.RDNSeq(rdns...))
 		var gns []*dt.Node
+		// each mailbox of the subject is repeated in the SAN verbatim, in its other IDNA spelling, as an
+		// rfc822Name or as a SmtpUTF8Mailbox (well-formed or not), or not at all
+		twin := map[string]string{"postmaster@xn--mnchen-3ya.de": "postmaster@m\u00fcnchen.de", "postmaster@m\u00fcnchen.de": "postmaster@xn--mnchen-3ya.de",
+			"user@b\u00fccher.example": "user@xn--bcher-kva.example", "user@xn--bcher-kva.example": "user@b\u00fccher.example", "user@XN--BCHER-KVA.example": "user@b\u00fccher.example",
+			"jane.doe@example.com": "JANE.DOE@EXAMPLE.COM", "JANE.DOE@EXAMPLE.COM": "jane.doe@example.com"}
+		smtpUTF8 := []int{1, 3, 6, 1, 5, 5, 7, 8, 9}
 		for _, m := range mails {
-			if rapid.IntRange(0, 2).Draw(rt, "insan") > 0 {
-				gns = append(gns, gen.GNEmail([]byte(m)))
+			as := m
+			switch rapid.IntRange(0, 7).Draw(rt, "insan") {
+			case 0, 1:
+				continue
+			case 2:
+				if tw, ok := twin[m]; ok {
+					as = tw
+				}
+			case 3:
+				if tw, ok := twin[m]; ok {
+					as = tw
+				}
+				gns = append(gns, gen.GNOther(smtpUTF8, dt.Prim(0, 12, []byte(as))))
+				desc = append(desc, "san:smtputf8:"+as)
+				continue
+			case 4:
+				gns = append(gns, gen.GNOther(smtpUTF8, dt.Prim(0, 12, []byte(as))))
+				desc = append(desc, "san:smtputf8:"+as)
+				continue
+			case 5:
+				// a mailbox otherName that is not a clean UTF8String: Latin-1 bytes, another type, trailing bytes
+				var inner *dt.Node
+				switch rapid.IntRange(0, 2).Draw(rt, "malformed") {
+				case 0:
+					inner = dt.Prim(0, 12, []byte("us\xe9r@example.com"))
+				case 1:
+					inner = dt.Prim(0, 4, []byte(as))
+				default:
+					inner = dt.Prim(0, 12, []byte(as))
+				}
+				g := gen.GNOther(smtpUTF8, inner)
+				if inner.Tag == 12 && len(g.Children) == 2 && rapid.Bool().Draw(rt, "trailing") {
+					g.Children[1].Children = append(g.Children[1].Children, dt.Prim(0, 5, nil))
+				}
+				gns = append(gns, g)
+				desc = append(desc, "san:smtputf8(malformed):"+as)
+				continue
 			}
+			gns = append(gns, gen.GNEmail([]byte(as)))
+			desc = append(desc, "san:email:"+as)
 		}
 		if len(gns) == 0 || rapid.Bool().Draw(rt, "extra") {
 			g, d := gen.DrawGN(rt)
